@@ -10,4 +10,5 @@ INIT InitRows
 NEXT NextRows
 INVARIANT Satisfied
 INVARIANT PinnedInv
+INVARIANT UniqueInv
 CHECK_DEADLOCK FALSE
